@@ -327,7 +327,7 @@ def dense_full(n, px):
 
 # ------------------------------------------------------------------ implementation side
 class Table:
-    def __init__(self, tmpdir, k, widths, px):
+    def __init__(self, tmpdir, k, widths, px, uri=None, mode="w"):
         import cooler
         from cooler.util import GenomeSegmentation
         self.widths = widths
@@ -337,11 +337,11 @@ class Table:
         self.n = sum(len(w) for w in widths)
         d = os.path.join(str(tmpdir), "cool")
         os.makedirs(d, exist_ok=True)
-        self.uri = os.path.join(d, f"t{k}.cool")
+        self.uri = uri or os.path.join(d, f"t{k}.cool")
         self.df = table_from_blocks(self.blocks)
         self.df["tag"] = np.arange(len(self.df), dtype=np.int64) * 7 + 1       # an extra bin column must come back with its own rows
         pdf = pd.DataFrame({"bin1_id": [p[0] for p in px], "bin2_id": [p[1] for p in px], "count": [p[2] for p in px]})
-        cooler.create_cooler(self.uri, self.df, pdf)
+        cooler.create_cooler(self.uri, self.df, pdf, mode=mode)
         self.clr = cooler.Cooler(self.uri)
         self.gs = GenomeSegmentation(self.clr.chromsizes, self.df[["chrom", "start", "end"]])
         self.grouped = self.df[["chrom", "start", "end"]].groupby("chrom", observed=True)
@@ -349,7 +349,9 @@ class Table:
         self.binid = {(self.names[c], s): k for k, (c, s, e) in enumerate(fl)}
 
     def close(self):
-        os.remove(self.uri)
+        path = self.uri.split("::")[0]
+        if os.path.exists(path):
+            os.remove(path)
 
     def bins_rows(self, df):
         return [[int(i), self.names.index(str(c)), int(s), int(e)] for i, c, s, e in zip(df.index, df["chrom"].astype(str), df["start"], df["end"])]
@@ -438,6 +440,114 @@ def table_worker(job):
         return ("timeout", None, None)
     except Exception as e:  # noqa: BLE001
         return ("crash:" + type(e).__name__ + ":" + str(e)[:200], None, None)
+    finally:
+        signal.alarm(0)
+
+
+# ------------------------------------------------------------------ histories: several coolers queried in ONE process
+def family_tables(rng, kind, size=3):
+    """bin tables that share the reported bin size (kind 'fixed') or are all variable-width (kind 'variable') but differ in the
+    number / lengths / order of their chromosomes, i.e. in indexes/chrom_offset"""
+    fam, seen = [], set()
+    b = rng.choice([1, 2, 5, 10])
+    while len(fam) < size:
+        nc = rng.choice([2, 3])
+        if kind == "fixed":
+            widths = [[b] * rng.randint(1, 4) + ([rng.randint(1, b)] if rng.random() < 0.6 else []) for _ in range(nc)]
+            widths[rng.randrange(nc)] = [b] * rng.randint(2, 4) + [rng.randint(1, b)]          # some chromosome shows the size
+        else:
+            widths = [[rng.randint(1, 6) for _ in range(rng.randint(1, 4))] for _ in range(nc)]
+            widths[rng.randrange(nc)] = [3, 5, 2][: rng.choice([3, 3, 2])] + [rng.randint(1, 4)]   # two different non-last widths
+            if widths[-1][:2] == [3, 5] and len(widths[-1]) < 3:
+                widths[-1].append(1)
+        offs = tuple(len(w) for w in widths)
+        if offs in seen:
+            continue
+        seen.add(offs)
+        fam.append(widths)
+    return fam
+
+
+def history_tables(hist):
+    """the per-table plans of a history, a pure function of its description (so that a replay rebuilds the same history)"""
+    import random
+    r = random.Random(hist["hseed"])
+    out = []
+    for widths in hist["family"]:
+        blocks = blocks_from_widths(widths)
+        n = sum(len(w) for w in widths)
+        regs = regions_large(r, blocks, 4)
+        pxseed = r.randrange(1 << 30)
+        dense = 0.6 if n <= 12 else 0.25
+        px = make_px(random.Random(pxseed), n, dense)
+        fidx = list(range(len(regs)))
+        pairs = [(regs[i], regs[r.randrange(len(regs))]) for i in fidx if r.random() < 0.4]
+        calls = [("extent", reg, None) for reg in regs]
+        calls += [(api, regs[i], None) for i in fidx for api in fetch_calls(i, regs[i])]
+        calls += [(pair_api(k, ra, rb), ra, rb) for k, (ra, rb) in enumerate(pairs)]
+        out.append((widths, pxseed, px, regs, fidx, pairs, "history:" + hist["mode"] + ":" + hist["order"], calls, dense))
+    return out
+
+
+def history_worker(job):
+    """ONE process, several coolers: (groups) the tables of a family stored as groups of one file and queried alternately /
+    blockwise / in reverse; (overwrite) one path re-created with one table after the other and queried after each overwrite,
+    always through fresh Cooler objects.  Returns the canonical results per table, in each table's own call order."""
+    tmpdir, k, hist = job
+    import signal
+    import cooler
+
+    def _alarm(*_):
+        raise TimeoutError("per-history wall-clock limit")
+    signal.signal(signal.SIGALRM, _alarm)
+    signal.alarm(240)
+    tabs = history_tables(hist)
+    nt = len(tabs)
+    outs = [[None] * len(tb[7]) for tb in tabs]
+    fixed = [None] * nt
+    d = os.path.join(str(tmpdir), "cool")
+    os.makedirs(d, exist_ok=True)
+    try:
+        if hist["mode"] == "groups":
+            path = os.path.join(d, f"h{k}.cool")
+            Ts = [Table(tmpdir, k, tb[0], tb[2], uri=f"{path}::/g{i}", mode=("a" if i else "w")) for i, tb in enumerate(tabs)]
+            for i, T in enumerate(Ts):
+                fixed[i] = T.clr.binsize is not None
+            if hist["order"] == "alternate":
+                m = max(len(tb[7]) for tb in tabs)
+                sched = [(i, c) for c in range(m) for i in range(nt) if c < len(tabs[i][7])]
+            elif hist["order"] == "blocks":
+                sched = [(i, c) for i in range(nt) for c in range(len(tabs[i][7]))]
+            else:
+                sched = [(i, c) for i in reversed(range(nt)) for c in range(len(tabs[i][7]))]
+            for step, (i, c) in enumerate(sched):
+                if step % 5 == 0:
+                    Ts[i].clr = cooler.Cooler(Ts[i].uri)          # a fresh Cooler object now and then
+                api, reg, reg2 = tabs[i][7][c]
+                outs[i][c] = run_api(Ts[i], api, reg, reg2)
+            Ts[0].close()
+        else:
+            path = os.path.join(d, f"o{k}.cool")
+            seq = hist["order_seq"]
+            cnt = {i: seq.count(i) for i in range(nt)}
+            done = {i: 0 for i in range(nt)}
+            for ph, i in enumerate(seq):
+                T = Table(tmpdir, k, tabs[i][0], tabs[i][2], uri=path, mode="w")      # overwrite the same path
+                fixed[i] = T.clr.binsize is not None
+                ncalls = len(tabs[i][7])
+                lo = ncalls * done[i] // cnt[i]
+                done[i] += 1
+                hi = ncalls * done[i] // cnt[i]
+                for c in range(lo, hi):
+                    api, reg, reg2 = tabs[i][7][c]
+                    outs[i][c] = run_api(T, api, reg, reg2)
+            if os.path.exists(path):
+                os.remove(path)
+        return [("ok", fixed[i], outs[i]) for i in range(nt)]
+    except TimeoutError:
+        return [("timeout", None, None)] * nt
+    except Exception as e:  # noqa: BLE001
+        return [("crash:" + type(e).__name__ + ":" + str(e)[:200], None, None)] * nt
     finally:
         signal.alarm(0)
 
@@ -620,24 +730,46 @@ def run(ctx):
         calls = [("extent", reg, None) for reg in regs]
         calls += [(api, regs[i], None) for i in fidx for api in fetch_calls(i, regs[i])]
         calls += [(pair_api(k, ra, rb), ra, rb) for k, (ra, rb) in enumerate(pairs)]
-        plan.append((widths, pxseed, px, regs, fidx, pairs, label, calls, dense))
+        plan.append((widths, pxseed, px, regs, fidx, pairs, label, calls, dense, None))
+    n_plain = len(plan)
 
-    exprs = [model_expr(blocks_from_widths(w), px, regs, fidx, pairs) for (w, _s, px, regs, fidx, pairs, _l, _c, _d) in plan]
-    wjobs = [(str(ctx.tmp), k, w, px, calls) for k, (w, _s, px, _r, _f, _p, _l, calls, _d) in enumerate(plan)]
+    # histories: state carried between calls in one process (same file name / same bin size, different chromosome tables)
+    hists = []
+    for kind in ("fixed", "variable"):
+        for rep in range(2 if thorough else 1):
+            fam = family_tables(rng, kind)
+            for order in ("alternate", "blocks", "reversed"):
+                hists.append({"mode": "groups", "order": order, "family": fam, "hseed": rng.randrange(1 << 30), "kind": kind})
+            seq = [0, 1, 2, 0, 1] if rep == 0 else [2, 0, 1, 0, 2]
+            hists.append({"mode": "overwrite", "order": "seq" + "".join(map(str, seq)), "order_seq": seq, "family": fam,
+                          "hseed": rng.randrange(1 << 30), "kind": kind})
+    hjobs = []
+    for hk, hist in enumerate(hists):
+        hjobs.append((str(ctx.tmp), hk, hist))
+        for hidx, tb in enumerate(history_tables(hist)):
+            plan.append(tb + ({"history": hist, "hidx": hidx},))
+
+    exprs = [model_expr(blocks_from_widths(w), px, regs, fidx, pairs) for (w, _s, px, regs, fidx, pairs, _l, _c, _d, _h) in plan]
+    wjobs = [(str(ctx.tmp), k, w, px, calls) for k, (w, _s, px, _r, _f, _p, _l, calls, _d, _h) in enumerate(plan[:n_plain])]
     pool = mp.get_context("fork").Pool(4)
     try:
+        async_h = pool.map_async(history_worker, hjobs, chunksize=1)
         async_res = pool.map_async(table_worker, wjobs, chunksize=4)
         model = C.coq_eval("From Cooler Require Import Model.Extent.", exprs, tmpdir=ctx.tmp / "extent", shard=24, jobs=3)
         impl = async_res.get(timeout=3000)
+        for res in async_h.get(timeout=3000):
+            impl.extend(res)
     finally:
         pool.terminate()
 
     counts = {"tables": len(plan), "regions": 0, "api_calls": 0, "fixed_tables": 0, "variable_tables": 0}
-    for (widths, pxseed, px, regs, fidx, pairs, label, calls, dense), mo, (status, fixed, got_all) in zip(plan, model, impl):
+    for (widths, pxseed, px, regs, fidx, pairs, label, calls, dense, hinfo), mo, (status, fixed, got_all) in zip(plan, model, impl):
         mvalid, mext_all, mfetch, mpairs = mo
         blocks = blocks_from_widths(widths)
         n = sum(len(w) for w in widths)
         tcase = {"widths": widths, "px_seed": pxseed, "px_dense": dense}
+        if hinfo:
+            tcase.update(hinfo)
         if not mvalid:
             ctx.disagree("generator produced a table the model calls invalid", tcase, True, False)
         if status != "ok":
@@ -716,6 +848,21 @@ def replay(ctx, case):
     n = sum(len(w) for w in widths)
     px = make_px(random.Random(case["px_seed"]), n, case.get("px_dense", 0.6 if n <= 12 else 0.25))
     blocks = blocks_from_widths(widths)
+    if "history" in case:          # re-run the whole history in one process and judge the recorded call of the recorded table
+        res = history_worker((str(ctx.tmp), 0, case["history"]))
+        st, _, outs = res[case["hidx"]]
+        if st != "ok":
+            return False
+        if "api" not in case:
+            return True
+        calls = history_tables(case["history"])[case["hidx"]][7]
+        reg = tuple(case["region"])
+        reg2 = tuple(case["region2"]) if "region2" in case else None
+        ok = True
+        for (api, r1, r2), got in zip(calls, outs):
+            if api == case["api"] and tuple(r1) == reg and (None if r2 is None else tuple(r2)) == reg2:
+                ok = ok and bool(oracle_call(blocks, px, dense_full(n, px), api, reg, reg2, got))
+        return ok
     if "api" not in case:
         st, _, _ = table_worker((str(ctx.tmp), 0, widths, px, []))
         return st == "ok"
